@@ -106,7 +106,10 @@ func (panel *userPanel) TerminateActiveUser(user *ActiveUser, reason string) {
 	user.closeAllSessions(reason)
 	verifhook.At("panel.terminate.closed")
 	panel.activeUsersM.Lock()
-	delete(panel.activeUsers, user.arrUID)
+	// only forget this record: the UID may already have a newer ActiveUser with live sessions
+	if panel.activeUsers[user.arrUID] == user {
+		delete(panel.activeUsers, user.arrUID)
+	}
 	panel.activeUsersM.Unlock()
 }
 
